@@ -10,7 +10,7 @@ git -C /repo worktree add -q --detach $WT HEAD || exit 2
 cd $WT
 DD=${DEMO_DIR:-.}
 cp $C/demo_test.go $WT/$DD/seeded_${ID}_demo_test.go
-T=$(grep -o 'func TestSeeded_[A-Za-z0-9_]*' $DD/seeded_${ID}_demo_test.go | head -1 | sed 's/func //')
+T=$(grep -o 'func TestSeed[A-Za-z0-9_]*' $DD/seeded_${ID}_demo_test.go | head -1 | sed 's/func //')
 R1=$(go1.26.8 test -vet=off -count=1 -run "^${T}\$" ./$DD >/tmp/wt/v_$ID.demo0.log 2>&1 && echo pass || echo fail)
 git apply $C/patch.diff || { echo "$ID patch does not apply"; exit 2; }
 R2=$(go1.26.8 test -vet=off -count=1 -run "^${T}\$" ./$DD >/tmp/wt/v_$ID.demo1.log 2>&1 && echo pass || echo fail)
